@@ -114,11 +114,19 @@ type RuleDesc struct {
 	Links []LinkDesc `json:"links"`
 }
 
+type Req struct {
+	Args [][2]string `json:"args,omitempty"`
+	Hdrs [][2]string `json:"hdrs,omitempty"`
+}
+
 type Case struct {
 	Kind    string      `json:"kind"` // run | init | macro | atoi | itoa
 	Ordered bool        `json:"ordered,omitempty"`
 	Args    [][2]string `json:"args,omitempty"`
 	Hdrs    [][2]string `json:"hdrs,omitempty"`
+	// requests processed and closed on the same WAF between the fresh run of this request and its re-run
+	// on the recycled transaction object (the re-run is transaction number len(Priors)+2 of the WAF)
+	Priors  []Req       `json:"priors,omitempty"`
 	Rules   []RuleDesc  `json:"rules,omitempty"`
 	Raw     string      `json:"raw,omitempty"`     // init / macro / atoi input (hex when RawHex)
 	RawHex  string      `json:"raw_hex,omitempty"` // bytes of Raw when not printable
@@ -134,6 +142,8 @@ type Case struct {
 	ObsMatched []int               `json:"obs_matched_ids,omitempty"`
 	ObsTrace   []string            `json:"obs_trace,omitempty"`
 	Obs        string              `json:"obs,omitempty"`
+	Nth        int                 `json:"nth_transaction_of_waf,omitempty"`
+	PoolReused bool                `json:"pool_object_reused,omitempty"`
 	FindingKey string              `json:"finding_key,omitempty"`
 }
 
@@ -512,7 +522,7 @@ type outcome struct {
 	ok   bool
 }
 
-func runCase(c *Case) (term string, err error) {
+func runCase(c *Case) (terms []string, err error) {
 	defer func() {
 		if r := recover(); r != nil {
 			err = fmt.Errorf("panic: %v", r)
@@ -522,19 +532,19 @@ func runCase(c *Case) (term string, err error) {
 	case "run":
 		return runTx(c)
 	case "init":
-		return runInit(c), nil
+		return []string{runInit(c)}, nil
 	case "macro":
-		return runMacro(c), nil
+		return []string{runMacro(c)}, nil
 	case "atoi":
 		v, e := strconv.Atoi(c.raw())
 		c.Obs = fmt.Sprintf("%d err=%v", v, e != nil)
-		return fmt.Sprintf("CAtoi %s %s %s", hxs(c.raw()), vh.Bool(e == nil), vh.Z(int64(v))), nil
+		return []string{fmt.Sprintf("CAtoi %s %s %s", hxs(c.raw()), vh.Bool(e == nil), vh.Z(int64(v)))}, nil
 	case "itoa":
 		o := strconv.Itoa(int(c.Z))
 		c.Obs = o
-		return fmt.Sprintf("CItoa %s %s", vh.Z(c.Z), hxs(o)), nil
+		return []string{fmt.Sprintf("CItoa %s %s", vh.Z(c.Z), hxs(o))}, nil
 	}
-	return "", fmt.Errorf("unknown case kind %q", c.Kind)
+	return nil, fmt.Errorf("unknown case kind %q", c.Kind)
 }
 
 func tokTerm(m macro.Macro) string {
@@ -575,72 +585,56 @@ func runMacro(c *Case) string {
 	return fmt.Sprintf("CMacro %s true %s", hxs(c.raw()), tokTerm(m))
 }
 
-func runTx(c *Case) (string, error) {
-	conf := renderRules(c.Rules)
-	c.Config = conf
-	sk := &sink{}
-	waf := corazawaf.NewWAF()
-	waf.Logger = capLogger{s: sk}
-	if err := seclang.NewParser(waf).FromString(conf); err != nil {
-		return "", fmt.Errorf("config does not compile: %v\n%s", err, conf)
-	}
-	// translate the compiled rules
-	compiled := waf.Rules.GetRules()
-	if len(compiled) != len(c.Rules) {
-		return "", fmt.Errorf("compiled %d rules, described %d", len(compiled), len(c.Rules))
-	}
-	var rterms []string
-	for i := range compiled {
-		r := &compiled[i]
-		d := c.Rules[i]
-		var links []string
-		j := 0
-		for lr := r; lr != nil; lr = lr.Chain {
-			if j >= len(d.Links) {
-				return "", fmt.Errorf("chain longer than described")
-			}
-			t, err := linkTerm(c, lr, d.Links[j])
-			if err != nil {
-				return "", err
-			}
-			links = append(links, t)
-			j++
-		}
-		if j != len(d.Links) {
-			return "", fmt.Errorf("chain shorter than described")
-		}
-		rterms = append(rterms, fmt.Sprintf("RR %s %s %s", vh.N(int64(r.Phase_)), links[0], vh.List(links[1:])))
-	}
+// observation of one transaction
+type txObs struct {
+	term    string // the observation arguments of CRun (everything after the rule list)
+	tx      map[string][]string
+	hs      string
+	intr    int
+	matched []int
+	human   []string
+	digest  string
+}
 
+func reqList(l []Req) string {
+	items := make([]string, len(l))
+	for i, r := range l {
+		items[i] = "(" + pairList(r.Args) + ", " + pairList(r.Hdrs) + ")"
+	}
+	return vh.List(items)
+}
+
+// runRequest drives one transaction through the five phases; observe = record what it did.
+func runRequest(waf *corazawaf.WAF, sk *sink, req Req, observe bool) (*corazawaf.Transaction, *txObs, error) {
 	tx := waf.NewTransaction()
-	defer tx.Close()
 	sk.events, sk.human = nil, nil
 	tx.ProcessConnection("10.0.0.1", 1234, "10.0.0.2", 80)
 	tx.ProcessURI("/p", "GET", "HTTP/1.1")
-	for _, a := range c.Args {
+	for _, a := range req.Args {
 		tx.AddGetRequestArgument(a[0], a[1])
 	}
-	for _, h := range c.Hdrs {
+	for _, h := range req.Hdrs {
 		tx.AddRequestHeader(h[0], h[1])
 	}
 	tx.ProcessRequestHeaders()
 	if _, err := tx.ProcessRequestBody(); err != nil {
-		return "", err
+		return tx, nil, err
 	}
 	tx.ProcessResponseHeaders(200, "HTTP/1.1")
 	if _, err := tx.ProcessResponseBody(); err != nil {
-		return "", err
+		return tx, nil, err
 	}
 	tx.ProcessLogging()
-
-	// observations
-	txm := map[string][]string{}
+	if !observe {
+		return tx, nil, nil
+	}
+	o := &txObs{tx: map[string][]string{}}
 	var txKeys []string
 	for _, md := range tx.Variables().TX().FindAll() {
-		if _, ok := txm[md.Key()]; !ok {
+		if _, ok := o.tx[md.Key()]; !ok {
 			txKeys = append(txKeys, md.Key())
 		}
-		txm[md.Key()] = append(txm[md.Key()], md.Value())
+		o.tx[md.Key()] = append(o.tx[md.Key()], md.Value())
 	}
 	sort.Strings(txKeys)
 	mvm := map[string][]string{}
@@ -653,31 +647,109 @@ func runTx(c *Case) (string, error) {
 		mvm[k] = append(mvm[k], md.Value())
 	}
 	sort.Strings(mvKeys)
-	hs := tx.Variables().HighestSeverity().Get()
+	o.hs = tx.Variables().HighestSeverity().Get()
 	mv := tx.Variables().MatchedVar().Get()
 	mvn := tx.Variables().MatchedVarName().Get()
-	intr := 0
 	if it := tx.Interruption(); it != nil {
-		intr = it.RuleID
+		o.intr = it.RuleID
 	}
 	var mrs []string
-	c.ObsMatched = nil
 	for _, mr := range tx.MatchedRules() {
 		var mds []string
 		for _, md := range mr.MatchedDatas() {
 			mds = append(mds, fmt.Sprintf("OMD %s %s %s %s %s", hxs(md.Variable().Name()), hxs(md.Key()), hxs(md.Value()), hxs(md.Message()), hxs(md.Data())))
 		}
 		mrs = append(mrs, fmt.Sprintf("OMR %s %s %s %s %s", vh.Z(int64(mr.Rule().ID())), vh.Z(int64(mr.Rule().Severity().Int())), hxs(mr.Message()), hxs(mr.Data()), vh.List(mds)))
-		c.ObsMatched = append(c.ObsMatched, mr.Rule().ID())
+		o.matched = append(o.matched, mr.Rule().ID())
 	}
-	c.ObsTX, c.ObsHS, c.ObsInt = txm, hs, intr
-	c.ObsTrace = sk.human
+	o.human = sk.human
+	// order-independent digest (hash-order cases are compared on it only)
+	o.digest = fmt.Sprintf("%s|%s|%d|%v|%d", groupTerm(txKeys, o.tx), o.hs, o.intr, o.matched, len(sk.events))
+	o.term = fmt.Sprintf("%s %s %s %s %s %s %s %s", groupTerm(txKeys, o.tx), hxs(o.hs), hxs(mv), hxs(mvn), groupTerm(mvKeys, mvm), vh.Z(int64(o.intr)), vh.List(mrs), vh.List(sk.events))
+	return tx, o, nil
+}
+
+// runTx runs the case's request as the FIRST transaction of a freshly built WAF, closes it, runs and
+// closes the prior requests, and runs the same request again on the recycled transaction object
+// (transaction number len(Priors)+2 of the WAF). Both observations are checked against the model:
+// one Coq case when they agree (the model is evaluated through the whole history), two otherwise.
+func runTx(c *Case) ([]string, error) {
+	conf := renderRules(c.Rules)
+	c.Config = conf
+	sk := &sink{}
+	waf := corazawaf.NewWAF()
+	waf.Logger = capLogger{s: sk}
+	if err := seclang.NewParser(waf).FromString(conf); err != nil {
+		return nil, fmt.Errorf("config does not compile: %v\n%s", err, conf)
+	}
+	// translate the compiled rules
+	compiled := waf.Rules.GetRules()
+	if len(compiled) != len(c.Rules) {
+		return nil, fmt.Errorf("compiled %d rules, described %d", len(compiled), len(c.Rules))
+	}
+	var rterms []string
+	for i := range compiled {
+		r := &compiled[i]
+		d := c.Rules[i]
+		var links []string
+		j := 0
+		for lr := r; lr != nil; lr = lr.Chain {
+			if j >= len(d.Links) {
+				return nil, fmt.Errorf("chain longer than described")
+			}
+			t, err := linkTerm(c, lr, d.Links[j])
+			if err != nil {
+				return nil, err
+			}
+			links = append(links, t)
+			j++
+		}
+		if j != len(d.Links) {
+			return nil, fmt.Errorf("chain shorter than described")
+		}
+		rterms = append(rterms, fmt.Sprintf("RR %s %s %s", vh.N(int64(r.Phase_)), links[0], vh.List(links[1:])))
+	}
+
+	self := Req{Args: c.Args, Hdrs: c.Hdrs}
+	tx, first, err := runRequest(waf, sk, self, true)
+	if err != nil {
+		return nil, err
+	}
+	reused := true
+	prev := tx
+	tx.Close()
+	for _, p := range c.Priors {
+		t, _, err := runRequest(waf, sk, p, false)
+		if err != nil {
+			return nil, err
+		}
+		reused = reused && t == prev
+		prev = t
+		t.Close()
+	}
+	tx, nth, err := runRequest(waf, sk, self, true)
+	if err != nil {
+		return nil, err
+	}
+	reused = reused && tx == prev
+	tx.Close()
+
+	c.Nth, c.PoolReused = len(c.Priors)+2, reused
+	c.ObsTX, c.ObsHS, c.ObsInt, c.ObsMatched = nth.tx, nth.hs, nth.intr, nth.matched
+	c.ObsTrace = nth.human
 	if len(c.ObsTrace) > 60 {
 		c.ObsTrace = append(append([]string{}, c.ObsTrace[:60]...), "...")
 	}
-	term := fmt.Sprintf("CRun %s %s %s %s %s %s %s %s %s %s %s %s", vh.Bool(c.Ordered), pairList(c.Args), pairList(c.Hdrs), vh.List(rterms),
-		groupTerm(txKeys, txm), hxs(hs), hxs(mv), hxs(mvn), groupTerm(mvKeys, mvm), vh.Z(int64(intr)), vh.List(mrs), vh.List(sk.events))
-	return term, nil
+	history := append([]Req{self}, c.Priors...)
+	mk := func(priors string, obs string) string {
+		return "CRun " + vh.Bool(c.Ordered) + " " + priors + " " + pairList(c.Args) + " " + pairList(c.Hdrs) + " " + vh.List(rterms) + " " + obs
+	}
+	if first.term == nth.term || (!c.Ordered && first.digest == nth.digest) {
+		return []string{mk(reqList(history), nth.term)}, nil
+	}
+	// the recycled transaction behaved differently: both observations go to the model
+	c.Obs = fmt.Sprintf("first transaction of the WAF: HIGHEST_SEVERITY=%q TX=%v matched=%v", first.hs, first.tx, first.matched)
+	return []string{mk("[]", first.term), mk(reqList(history), nth.term)}, nil
 }
 
 func unhex(h string) string {
@@ -703,7 +775,7 @@ func Run(cfg vh.Config) (*vh.Result, error) {
 		res.OracleFailures = append(res.OracleFailures, vh.OracleFailure{Key: key, What: what, Case: c})
 	}
 	add := func(c *Case) {
-		term, err := runCase(c)
+		ts, err := runCase(c)
 		res.Evaluations++
 		if err != nil {
 			fail("c09-harness", "case could not be run: "+err.Error(), c)
@@ -729,10 +801,21 @@ func Run(cfg vh.Config) (*vh.Result, error) {
 		}
 		if c.Kind == "run" {
 			describe(c, res.InputDistribution)
+			res.InputDistribution[fmt.Sprintf("nth_transaction_%d", c.Nth)]++
+			if c.PoolReused {
+				res.InputDistribution["pool_object_reused"]++
+			}
 			checkExpect(c, fail, res)
+			res.OracleEvaluations++
+			if len(ts) > 1 {
+				// implementation-side oracle: the same request on the same WAF must not depend on what the pooled object served before
+				fail("c09-recycled-transaction", fmt.Sprintf("the request behaves differently as transaction %d of the WAF (recycled object) than as the first one; %s", c.Nth, c.Obs), c)
+			}
 		}
-		terms = append(terms, term)
-		cases = append(cases, c)
+		for _, t := range ts {
+			terms = append(terms, t)
+			cases = append(cases, c)
+		}
 	}
 
 	if cfg.Replay != "" {
@@ -766,19 +849,19 @@ func Run(cfg vh.Config) (*vh.Result, error) {
 			add(c)
 		}
 		for _, c := range fixedRunCases() {
-			add(c)
+			add(withPriors(rng, c))
 		}
 		for i := 0; i < cfg.Pick(120, 1500); i++ {
-			add(genSum(rng))
+			add(withPriors(rng, genSum(rng)))
 		}
 		for i := 0; i < cfg.Pick(90, 1500); i++ {
-			add(genCap(rng))
+			add(withPriors(rng, genCap(rng)))
 		}
 		for i := 0; i < cfg.Pick(360, 6000); i++ {
-			add(genRun(rng, true))
+			add(withPriors(rng, genRun(rng, true)))
 		}
 		for i := 0; i < cfg.Pick(70, 1500); i++ {
-			add(genRun(rng, false))
+			add(withPriors(rng, genRun(rng, false)))
 		}
 	}
 
